@@ -1040,6 +1040,27 @@ def evaluate(t, env, memo=None):
                 raise
             except Exception as e:
                 raise CannotEval("%s raises %s" % (repr(t)[:80], type(e).__name__))
+        elif op == "re.compile" and t.args and all(isinstance(a, (Const, Ext)) for a in t.args):
+            # the meaning of a constant regular expression is that of the standard library's engine
+            import re as _re
+            flags = 0
+            for a in t.args[1:]:
+                name = getattr(a, "name", None) or ""
+                fl = getattr(_re, name.split(".")[-1], None) if name.startswith("re.") else None
+                if fl is None:
+                    raise CannotEval(repr(t)[:120])
+                flags |= fl
+            r = _re.compile(t.args[0].v, flags)
+        elif op in ("m:fullmatch", "m:match", "m:search") and len(t.args) == 2:
+            pat, subj = evaluate(t.args[0], env, memo), evaluate(t.args[1], env, memo)
+            if not hasattr(pat, "fullmatch") or not isinstance(subj, (str, bytes)):
+                raise CannotEval(repr(t)[:120])
+            r = getattr(pat, op[2:])(subj)
+        elif op in ("m:groups", "m:group", "m:end", "m:start", "m:span") and t.args:
+            mo = evaluate(t.args[0], env, memo)
+            if mo is None or not hasattr(mo, "groups"):
+                raise CannotEval(repr(t)[:120])
+            r = getattr(mo, op[2:])(*[evaluate(a, env, memo) for a in t.args[1:]])
         elif op == "sorted" and len(t.args) == 1:
             r = sorted(evaluate(t.args[0], env, memo))
         elif op == "reversed" and len(t.args) == 1:
